@@ -380,7 +380,8 @@ class Simplex(Polytope):
         m[-1, :-1] = 1
         m[:-1, -1] = 1
 
-        return np.sqrt((-1) ** n / (math.factorial(n - 1) ** 2 * 2 ** (n - 1)) * det(m))
+        # the Cayley-Menger determinant of a flat simplex is zero up to rounding, possibly with the wrong sign
+        return np.sqrt(np.maximum(0, (-1) ** n / (math.factorial(n - 1) ** 2 * 2 ** (n - 1)) * det(m)))
 
 
 class PolygonTensor(PolytopeTensor):
